@@ -104,7 +104,12 @@ type Explorer struct {
 	Check func(w *World)
 	// OnNew runs on every new state (state-level oracle); path is the history that reached it.
 	OnNew func(w *World, path []Op)
-	seen  map[uint64]struct{}
+	// OnNewList: further state-level oracles, each on its own fresh replay.
+	OnNewList []func(w *World, path []Op)
+	// Collect: remember the shortest path to every distinct state in States.
+	Collect bool
+	States  [][]Op
+	seen    map[uint64]struct{}
 	quiet bool // this visit is replicated on every worker: only shard 0 counts it
 }
 
@@ -203,12 +208,21 @@ func (e *Explorer) visit(path []Op, extend bool) (bool, bool) {
 	if len(path) > 0 {
 		c.Sample(map[string]interface{}{"cfg": e.Cfg, "history": path})
 	}
+	if e.Collect && !e.quiet {
+		e.States = append(e.States, path)
+	}
+	hooks := e.OnNewList
 	if e.OnNew != nil {
+		hooks = append([]func(w *World, path []Op){e.OnNew}, hooks...)
+	}
+	for _, hook := range hooks {
 		// state-level oracle on a fresh replay of the same path
+		hook := hook
 		res2 := RunPath(e.Cfg, e.Prop, path, func(w *World) {
 			w.Viol = nil
-			e.OnNew(w, path)
+			hook(w, path)
 		})
+		c.Count("paths_replayed", 1)
 		for _, v := range res2.W.Viol {
 			c.Violation(v)
 		}
